@@ -92,6 +92,7 @@ type interpreter struct {
 	goroutines         int32                  // atomically updated
 	ex                 *Explorer              // per-worker exploration state
 	inited             map[*ssa.Package]bool
+	initing            map[*ssa.Package]bool
 }
 
 type deferred struct {
@@ -199,7 +200,13 @@ func visitInstr(fr *frame, instr ssa.Instruction) continuation {
 		fr.env[instr] = unop(instr, fr.get(instr.X))
 
 	case *ssa.BinOp:
-		fr.env[instr] = binop(instr.Op, instr.X.Type(), fr.get(instr.X), fr.get(instr.Y))
+		r := binop(instr.Op, instr.X.Type(), fr.get(instr.X), fr.get(instr.Y))
+		if sv, ok := r.(symv); ok && sv.sort == 'I' {
+			// machine integers wrap, SMT integers do not: the result must
+			// provably stay in range, else the path is inconclusive
+			fr.i.ex.checkIntRange(sv.term, instr.Type())
+		}
+		fr.env[instr] = r
 
 	case *ssa.Call:
 		fn, args := prepareCall(fr, &instr.Call)
@@ -461,7 +468,8 @@ func prepareCall(fr *frame, call *ssa.CallCommon) (fn value, args []value) {
 		// Interface method invocation.
 		recv := v.(iface)
 		if recv.t == nil {
-			panic("method invoked on nil interface")
+			// a target-program fault (Go: nil pointer dereference), not an engine one
+			panic("target:runtime error: invalid memory address or nil pointer dereference (method invoked on nil interface)")
 		}
 		if f := lookupMethod(fr.i, recv.t, call.Method); f == nil {
 			// Unreachable in well-typed programs.
@@ -762,6 +770,17 @@ func (i *interpreter) ensureInit(pkg *ssa.Package) {
 func (i *interpreter) global(g *ssa.Global) *value {
 	if r, ok := i.globals[g]; ok {
 		return r
+	}
+	if g.Pkg != nil && InitOK(g.Pkg.Pkg.Path()) && !i.inited[g.Pkg] && !i.initing[g.Pkg] && g.Name() != "init$guard" {
+		// a whitelisted package that no executed initialiser chain reached
+		// (e.g. only imported by dependency packages): initialise it on demand
+		i.initing[g.Pkg] = true
+		saved := i.ex.curFrame
+		i.ensureInit(g.Pkg)
+		i.ex.curFrame = saved
+		if r, ok := i.globals[g]; ok {
+			return r
+		}
 	}
 	if g.Pkg != nil && !InitOK(g.Pkg.Pkg.Path()) && needsInit(g) && !BenignGlobals[g.String()] {
 		if alt := GlobalInit[g.String()]; alt != nil {
